@@ -37,7 +37,7 @@ var mains = map[string]func(map[string]string){
 	"c04": c04Main,
 	"c05": c05Main,
 	"c07": c07Main,
-	"c10": c10Main, "c08": c08Main, "c09": c09Main, "c15": c15Main, "c11p": c11pMain, "c13p": c13pMain, "c12": c12Main,
+	"c10": c10Main, "c08": c08Main, "c09": c09Main, "c15": c15Main, "c11p": c11pMain, "c13p": c13pMain, "c12": c12Main, "c06": c06Main, "idlof": idlofMain,
 	"c11": c11Main,
 	"c13": c13Main,
 	"c19": c19Main,
@@ -98,7 +98,7 @@ func main() {
 			die("too many worker crashes")
 		}
 		fo, _ := os.OpenFile(args["out"], os.O_APPEND|os.O_CREATE|os.O_WRONLY, 0644)
-		ev, _ := json.Marshal(map[string]interface{}{"ev": "Crash", "i": m.I, "case": m.Case, "msg": tail(string(outb), 600), "race": strings.Contains(string(outb), "DATA RACE")})
+		ev, _ := json.Marshal(map[string]interface{}{"ev": "Crash", "i": m.I, "case": m.Case, "msg": crashText(string(outb)), "race": strings.Contains(string(outb), "DATA RACE")})
 		// make sure a partial last line does not swallow the event
 		fo.Write([]byte("\n"))
 		fo.Write(ev)
@@ -161,6 +161,20 @@ func runWatched(cmd *exec.Cmd, marker string) (out []byte, killed string, err er
 			}
 		}
 	}
+}
+
+// crashText keeps the part of a worker's dying words that names the fault: from the first fatal/panic/signal line on
+func crashText(s string) string {
+	for _, k := range []string{"unexpected fault address", "fatal error:", "SIGSEGV", "panic:", "WARNING: DATA RACE", "WORKER KILLED"} {
+		if i := strings.Index(s, k); i >= 0 {
+			e := i + 1800
+			if e > len(s) {
+				e = len(s)
+			}
+			return s[i:e]
+		}
+	}
+	return tail(s, 800)
 }
 
 func tail(s string, n int) string {
